@@ -818,6 +818,12 @@ func (l *commitLog) Clean() error {
 	// compaction ran, we need to regenerate the cache using the one returned
 	// from compaction.
 	if epochCache != nil {
+		// Compaction rebuilt the leader epochs from the segments as they were
+		// when it scanned them. Carry over any leader epoch that has started
+		// since then, i.e. in or after the segment that was active at that
+		// time. Rebase can't return an error since epochCache is not
+		// file-backed.
+		epochCache.Rebase(l.leaderEpochCache, oldSegments[len(oldSegments)-1].BaseOffset) // nolint: errcheck
 		err = l.leaderEpochCache.Replace(epochCache)
 	} else {
 		err = l.leaderEpochCache.ClearEarliest(l.segments[0].BaseOffset)
